@@ -67,6 +67,11 @@ class Three(int, Rule):
 class Sub(Schema):
     a: int
     b: List[int] = Field(default_factory=list)
+def _other_scope():
+    class Sub(Schema):          # another class of the same name (another module / scope)
+        c: str
+    return Sub
+SubB = _other_scope()
 '''
 
 # annotation -> list of valid python inputs (values distinct from every default used below)
@@ -78,7 +83,7 @@ TYPES = {
     "NegInt": [-1, "-7"], "LeInt": [5, 0], "Len2": ["ab"], "MinList": [[1], [1, 2]], "Step": [1.5, 0, "2.0"], "Dec2": [D("12.34"), D("0.5"), "99.99"], "Three": [3, "3"],
     "Literal['a', 'b']": ["a"], "Color": ["r", "g"], "Union[int, str]": [3, "x"], "Union[PosInt, None]": [3, None],
     "Decimal": [D("1.5"), D("9007199254740991"), D("-9007199254740991"), D("9007199254740992"), 3], "date": ["2022-03-04"], "datetime": ["2022-03-04 10:11:12"],
-    "Sub": [{"a": 1}, {"a": "2", "b": [3]}], "List[Sub]": [[{"a": 1}], []], "Dict[str, List[int]]": [{"k": [1]}], "Any": [1, "x", [1]],
+    "Sub": [{"a": 1}, {"a": "2", "b": [3]}], "SubB": [{"c": "x"}], "List[SubB]": [[{"c": "y"}], []], "List[Sub]": [[{"a": 1}], []], "Dict[str, List[int]]": [{"k": [1]}], "Any": [1, "x", [1]],
 }
 DEFAULTS = {"int": "77", "float": "7.5", "str": "'dflt'", "bool": "False", "List[int]": "[7]", "Dict[str, int]": "{'d': 7}", "Decimal": "Decimal('7.5')",
             "PosInt": "77", "ShortStr": "'dfl'", "Union[int, str]": "77"}
@@ -92,10 +97,15 @@ PROPS = [("size", "List[int]", "int", "len(v)", [[1, 2, 3], []]), ("code", "int"
 
 def gen_class(rng, n):
     nf = rng.randint(1, 4)
+    if n % 8 == 3:
+        nf = max(nf, 2)
     fields = []
     names = ["a", "b", "c", "d"]
+    both = n % 8 == 3          # two different classes of the same name in one document
     for i in range(nf):
         ann = rng.choice(sorted(TYPES))
+        if both and i < 2:
+            ann = ("Sub", "SubB")[i]
         shape = rng.choice(SHAPES)
         if shape in ("default", "noin") and ann not in DEFAULTS:
             shape = "optional" if shape == "default" else "req"
@@ -253,8 +263,15 @@ def main():
             exec(PRELUDE, ns)
             exec(decl["src"], ns)
             T = ns["T"]
-            doc_in = inline_refs(JsonSchemaGenerator(T, output=False)())
-            doc_out = inline_refs(JsonSchemaGenerator(T, output=True)())
+            if ci % 2:
+                # definitions collected in a $defs dictionary (the document refers to them)
+                gi, go = JsonSchemaGenerator(T, defs={}, output=False), JsonSchemaGenerator(T, defs={}, output=True)
+                di, do = gi(), go()
+                doc_in = inline_refs(dict(di, **{"$defs": gi.get_defs()}))
+                doc_out = inline_refs(dict(do, **{"$defs": go.get_defs()}))
+            else:
+                doc_in = inline_refs(JsonSchemaGenerator(T, output=False)())
+                doc_out = inline_refs(JsonSchemaGenerator(T, output=True)())
         except Exception as e:
             ck.count("not_judged: declaration or generation refused (%s)" % type(e).__name__)
             continue
